@@ -45,6 +45,61 @@ func rulesC15(c *Ctx, r *Report) {
 	}
 	rulesTrieWalk(c, r)
 	rulesTrieEmptyKey(c, r)
+	rulesTrieAddGuard(c, r)
+}
+
+// rulesTrieAddGuard (ADD-GUARD): Add stores a child only where the lookup of the same map and key was nil —
+// it never replaces an existing subtree.
+func rulesTrieAddGuard(c *Ctx, r *Report) {
+	f := c.fn("trie", "(*Trie).Add")
+	where := "trie.(*Trie).Add"
+	if f == nil {
+		r.undecided("ADD-GUARD", where, "anchor", "", "Add not found")
+		return
+	}
+	r.analysed(where)
+	s := newSymb(f)
+	n := 0
+	instrs(f, func(in ssa.Instruction) {
+		mu, ok := in.(*ssa.MapUpdate)
+		if !ok {
+			return
+		}
+		n++
+		mk := s.expr(mu.Map).String() + "[" + s.expr(mu.Key).String() + "]"
+		guarded := false
+		for cur := mu.Block(); cur != nil && cur.Idom() != nil; cur = cur.Idom() {
+			d := cur.Idom()
+			iff, ok := lastInstr(d).(*ssa.If)
+			if !ok || len(cur.Preds) != 1 || cur.Preds[0] != d {
+				continue
+			}
+			bo, ok := iff.Cond.(*ssa.BinOp)
+			if !ok || (bo.Op != token.EQL && bo.Op != token.NEQ) {
+				continue
+			}
+			var lk *ssa.Lookup
+			if l, ok := bo.X.(*ssa.Lookup); ok && isNilConst(bo.Y) {
+				lk = l
+			} else if l, ok := bo.Y.(*ssa.Lookup); ok && isNilConst(bo.X) {
+				lk = l
+			}
+			if lk == nil || s.expr(lk.X).String()+"["+s.expr(lk.Index).String()+"]" != mk {
+				continue
+			}
+			onNil := d.Succs[0] == cur
+			if bo.Op == token.NEQ {
+				onNil = d.Succs[1] == cur
+			}
+			if onNil {
+				guarded = true
+			}
+		}
+		r.check(guarded, "ADD-GUARD", where, "child stored only where absent", c.pos(mu.Pos()),
+			"the store into "+mk+" is taken only on the nil edge of a lookup of the same map and key: an existing subtree is never replaced",
+			"the store into "+mk+" is not guarded by `lookup == nil` on the same map and key: adding a prefix of a member (or re-adding) replaces the subtree below it and loses members")
+	})
+	r.floor("ADD-GUARD", n, 1, "map updates in Add")
 }
 
 // rulesTrieWalk (DEL-WALK): in Delete every child lookup is nil-tested before the walk can reach the
@@ -308,6 +363,15 @@ func rulesTrieDelete(c *Ctx, r *Report, e *effEngine) {
 		r.check(bad == "", "DEL-NF", where, "not-found path writes nothing", c.pos(rt.Pos()), "no write to the trie can precede this `return false`", "the trie may be modified ("+bad+") on a path that then reports 'not found'")
 	}
 	r.floor("DEL-writes", len(evs), 1, "write events of Delete on the trie (the delete itself)")
+	// DEL-ONLY: Delete changes the trie by removing map entries and in no other way
+	var other []string
+	for _, ev := range evs {
+		if ev.kind != "delete" {
+			other = append(other, fmt.Sprintf("%s at %s", ev.kind, c.pos(ev.ins.Pos())))
+		}
+	}
+	r.check(len(other) == 0, "DEL-ONLY", where, "only removes edges", c.pos(f.Pos()), fmt.Sprintf("all %d write events of Delete on the trie are delete() on a node's map: nodes that stay reachable (the root included) keep a usable map", len(evs)),
+		"Delete also changes the trie other than by delete() on a map ("+strings.Join(other, "; ")+"): a node that stays reachable, e.g. the root of an emptied trie, can be left in a state later calls do not expect")
 	// DEL-PRUNE: after delete(node.m, key), the loop continues only when len(node.m) == 0
 	var del *ssa.Call
 	instrs(f, func(in ssa.Instruction) {
